@@ -1,10 +1,14 @@
 import Driver.Util
 import HeimdallModel.Model.FactoryProbe
+import HeimdallModel.Model.FactoryCel
 import HeimdallModel.Spec.Inheritance
 -- @family factory
 /-! Line-protocol family `factory` (property C14): a configuration (catalogue, mode, default rule) and a history
 of rule definitions loaded by one factory; answers, per rule, with the load verdict and, for an accepted rule, the traces of the probe requests — once from
-the model (`Factory.load`, the function the theorems are about) and once from the specification (`Spec.load`). -/
+the model (`Factory.load`, the function the theorems are about) and once from the specification (`Spec.load`).
+CEL expressions (`if` of a step, `expressions` of a rule-level override) come as text plus the tree that text spells
+(table `cel` of the case); their static type is computed here (`Cel.check`).  Operation `cel`: the static types of a
+list of expressions, to be compared with what cel-go reports. -/
 open Lean Heimdall Heimdall.Factory
 
 namespace Driver.Factory
@@ -18,29 +22,78 @@ def parseKind (s : String) : E Kind :=
   | "eh" => pure .eh
   | _ => throw s!"bad kind {s}"
 
-def parseCond (s : String) : E Cond :=
-  match s with
+/-- a CEL expression of the case: `{"b": true}`, `{"i": 1}`, `{"s": "x"}`, `{"list": e}`, `{"map": ["k", e]}`,
+`{"var": "Subject"}`, `{"sel": [e, "f"]}`, `{"idx": [e, i]}`, `{"eq"|"ne"|"and"|"or": [a, b]}`, `{"not": a}`,
+`{"ite": [c, a, b]}`, `{"call": [recv, "fn"]}`, `{"call": [recv, "fn", arg]}`, `{"fn": ["name", arg]}`,
+`{"raw": "text the parser refuses"}` -/
+partial def parseCel (j : Json) : E Cel := do
+  let two (k : String) (mk : Cel → Cel → Cel) : E Cel := do
+    match ← arr j k with
+    | [a, b] => pure (mk (← parseCel a) (← parseCel b))
+    | _ => throw s!"cel: {k} takes two operands"
+  match j with
+  | .obj m =>
+    match m.toList with
+    | [("b", .bool b)] => pure (.bool b)
+    | [("i", v)] => pure (.int (← v.getNat?))
+    | [("s", .str s)] => pure (.str s)
+    | [("list", e)] => pure (.list1 (← parseCel e))
+    | [("map", .arr #[.str k, e])] => pure (.map1 k (← parseCel e))
+    | [("var", .str n)] => pure (.var n)
+    | [("sel", .arr #[e, .str f])] => pure (.sel (← parseCel e) f)
+    | [("idx", _)] => two "idx" .idx
+    | [("eq", _)] => two "eq" .eq
+    | [("ne", _)] => two "ne" .ne
+    | [("and", _)] => two "and" .and
+    | [("or", _)] => two "or" .or
+    | [("not", a)] => pure (.not (← parseCel a))
+    | [("ite", .arr #[c, a, b])] => pure (.ite (← parseCel c) (← parseCel a) (← parseCel b))
+    | [("call", .arr #[r, .str f])] => pure (.call0 (← parseCel r) f)
+    | [("call", .arr #[r, .str f, a])] => pure (.call1 (← parseCel r) f (← parseCel a))
+    | [("fn", .arr #[.str f, a])] => pure (.fn1 f (← parseCel a))
+    | [("raw", .str _)] => pure .garbage
+    | _ => throw s!"cel: unknown node {j.compress}"
+  | _ => throw s!"cel: unknown node {j.compress}"
+
+/-- the table `cel` of a case: expression text ↦ the tree it spells.  Fails closed on a text listed twice with
+different trees. -/
+def parseCelTable (c : Json) : E (List (String × Cel)) := do
+  let entries ← (arrD c "cel").mapM fun e => do pure (← str e "src", ← parseCel (← fld e "ast"))
+  for (src, ast) in entries do
+    if entries.any (fun x => x.1 == src && x.2 != ast) then throw s!"cel: two trees for {src}"
+  pure entries
+
+abbrev CelTable := List (String × Cel)
+
+/-- the `if` of a step.  `cel`: the step's `if` is an expression of the case's table, its class is computed from the
+tree (`Cel.cond`: static type, or does not compile); the other names are the classes of the older streams (`expr`: the
+boolean expression `Request.Header("X-Skip") != "1"`) -/
+def parseCond (Γ : CelTable) (j : Json) : E Cond :=
+  match strD j "cond" "absent" with
   | "absent" => pure .absent
-  | "expr" => pure .expr
+  | "expr" => pure (.expr (strD j "if" "") (some .bool))
   | "empty" => pure .empty
-  | "invalid" => pure .invalid
+  | "invalid" => pure (.expr (strD j "if" "") none)
   | "nonstring" => pure .nonString
-  | _ => throw s!"bad cond {s}"
+  | "cel" => do
+    let src ← str j "if"
+    match Γ.lookup src with
+    | some ast => pure (ast.cond src)
+    | none => throw s!"cond: expression {src} is not in the table of the case"
+  | s => throw s!"bad cond {s}"
 
 def optStr (j : Json) (k : String) : Option String :=
   match j.getObjVal? k with
   | .ok (.str s) => some s
   | _ => none
 
-def parseStep (j : Json) : E Step := do
+def parseStep (Γ : CelTable) (j : Json) : E Step := do
   let keys := fldD j "keys" (Json.mkObj [])
   let cfg ← (if isNull j "cfg" then pure none else do pure (some (← nat j "cfg")))
   pure { authenticator := optStr keys "authenticator", authorizer := optStr keys "authorizer",
          contextualizer := optStr keys "contextualizer", finalizer := optStr keys "finalizer",
          errorHandler := optStr keys "error_handler",
-         cond := ← parseCond (strD j "cond" "absent"), config := cfg }
-
-def parseSteps (j : Json) (k : String) : E (List Step) := (arrD j k).mapM parseStep
+         cond := ← parseCond Γ j, config := cfg }
 
 structure Decl where
   kind : Kind
@@ -57,6 +110,7 @@ def typedMech (kind : Kind) (typ id : String) (accepts : List Nat) : E TMech := 
     | .authn, "generic" => pure (MType.generic, ({} : Shown), ({ fallback := false } : Shown))
     | .authn, "anonymous" => pure (.anonymous, { subject := "anon".toList }, { subject := "ovr".toList })
     | .authz, "remote" => pure (.remote, { values := [("v".toList, "base".toList)] }, { values := [("v".toList, "ovr".toList)] })
+    | .authz, "cel" => pure (.cel, { expressions := ["true".toList] }, { expressions := ["true".toList] })
     | .ctx, "generic" => pure (.genericCtx, { values := [("v".toList, "base".toList)] }, { values := [("v".toList, "ovr".toList)] })
     | .fin, "header" => pure (.header, { headers := [("X-Fin".toList, (id ++ "/{{ .Subject.ID }}/base").toList)] },
                               { headers := [("X-Fin".toList, (id ++ "/{{ .Subject.ID }}/ovr").toList)] })
@@ -73,6 +127,7 @@ def parseDecl (j : Json) : E Decl := do
   let accepts ← nats j "accepts"
   let fl : Flavour := match kind, typ with
     | .authn, "anonymous" => .constant
+    | .authz, "cel" => .silent
     | .eh, "default" => .passthrough
     | .eh, "www_authenticate" => .challenge
     | .eh, _ => .redirect
@@ -96,20 +151,37 @@ partial def toVal (j : Json) : E Val :=
 /-- tags from 100 on name the values of the case's `ovr` table -/
 def typedBase : Nat := 100
 
-def typed (ds : List Decl) (ovr : List Val) : Typed :=
+def typed (ds : List Decl) (ovr : List Val) (Γ : CelTable) : Typed :=
   { mech := fun k id => (ds.find? (fun d => d.kind == k && d.id == id)).map (·.mech)
     ovr := fun n => if n < typedBase then none else ovr[n - typedBase]?
-    tags := (List.range ovr.length).map (· + typedBase) }
+    tags := (List.range ovr.length).map (· + typedBase)
+    cel := fun src => (Γ.lookup (String.ofList src)).bind Cel.check }
+
+mutual
+/-- the non-empty strings under a key `expression` of an override value -/
+partial def exprTexts : Val → List String
+  | .list es => exprTextsL es
+  | .obj fs => exprTextsF fs
+  | _ => []
+partial def exprTextsL : Vals → List String
+  | .nil => []
+  | .cons v rest => exprTexts v ++ exprTextsL rest
+partial def exprTextsF : Flds → List String
+  | .nil => []
+  | .cons k (.str s) rest =>
+    (if k == "expression".toList && !s.isEmpty then [String.ofList s] else []) ++ exprTextsF rest
+  | .cons _ v rest => exprTexts v ++ exprTextsF rest
+end
 
 def flavours (ds : List Decl) : Flavours := fun k id =>
   ((ds.find? (fun d => d.kind == k && d.id == id)).map (·.flavour)).getD .remote
 
 /-- a list-valued key as spelled in the case: absent, `null` or a list -/
-def parseListed (j : Json) (k : String) : E Listed :=
+def parseListed (Γ : CelTable) (j : Json) (k : String) : E Listed :=
   match j.getObjVal? k with
   | .error _ => pure .absent
   | .ok .null => pure .null
-  | .ok (.arr a) => do pure (.items (← a.toList.mapM parseStep))
+  | .ok (.arr a) => do pure (.items (← a.toList.mapM (parseStep Γ)))
   | .ok _ => throw s!"{k}: list, null or nothing expected"
 
 def spelling (l : Listed) : String :=
@@ -119,16 +191,16 @@ def spelling (l : Listed) : String :=
   | .items [] => "empty"
   | .items _ => "items"
 
-def parseDefault (c : Json) : E (Option RawDefault) := do
+def parseDefault (Γ : CelTable) (c : Json) : E (Option RawDefault) := do
   if isNull c "default" then pure none else
   let d ← fld c "default"
-  pure (some { backtracking := boolD d "bt" false, execute := ← parseListed d "execute",
-               onError := ← parseListed d "on_error" })
+  pure (some { backtracking := boolD d "bt" false, execute := ← parseListed Γ d "execute",
+               onError := ← parseListed Γ d "on_error" })
 
-def parseRule (r : Json) : E RawRule := do
+def parseRule (Γ : CelTable) (r : Json) : E RawRule := do
   let bt ← (if isNull r "bt" then pure none else do pure (some (← bool r "bt")))
-  pure { backtracking := bt, forwardTo := boolD r "forward_to" false, execute := ← parseListed r "execute",
-         onError := ← parseListed r "on_error" }
+  pure { backtracking := bt, forwardTo := boolD r "forward_to" false, execute := ← parseListed Γ r "execute",
+         onError := ← parseListed Γ r "on_error" }
 
 /-- the second rule of the probe rule set: `/r/**`, any method, one anonymous authenticator, `forward_to` set -/
 def companion : RuleDef := { forwardTo := true, execute := [{ authenticator := some "anon" }] }
@@ -212,23 +284,46 @@ def ruleStats (T : Typed) (d : Option DefaultRule) (raw : RawRule) (reason : Str
     ("ordered", Json.bool (orderedFrom 0 r.execute)),
     ("multi_key", Json.bool ((r.execute ++ r.onError).any (fun s => keyCount s > 1))),
     ("overrides", jnat ((r.execute ++ r.onError).countP (·.config.isSome))),
+    ("conds", jstrs ((r.execute ++ r.onError).filterMap fun s =>
+      match s.cond with
+      | .absent => none
+      | .expr _ (some t) => some ("expr:" ++ t.name)
+      | .expr _ none => some "invalid"
+      | .empty => some "empty"
+      | .nonString => some "nonstring")),
     ("typed", jnat (typedSteps T r).1),
     ("typed_refused", jnat (typedSteps T r).2),
     ("bt_own", Json.bool r.backtracking.isSome)]
 
+/-- operation `cel`: static type (as cel-go prints it, `error` when the expression does not compile) and verdict of
+`cellib.CompileExpression` for each expression of the case -/
+def runCel (c : Json) : E Json := do
+  let Γ ← parseCelTable c
+  let res := Γ.map fun (_, ast) =>
+    Json.mkObj [("type", jstr (match ast.check with | some t => t.name | none => "error")),
+                ("accepted", Json.bool (condition (ast.cond "") == .ok true))]
+  let r := Json.mkObj [("cel", jarr res)]
+  pure (Json.mkObj [("res", r), ("spec", r)])
+
 def run (c : Json) : E Json := do
+  if strD c "op" "" == "cel" then return ← runCel c
+  let Γ ← parseCelTable c
   let decls ← (← arr c "cat").mapM parseDecl
   -- the typed catalogue: what every mechanism shows, and the override VALUES the steps name by tag; the abstract
   -- catalogue of the rule factory model is derived from it (`WithConfig` accepts a tag iff it accepts its value)
-  let T := typed decls (← (arrD c "ovr").mapM toVal)
+  let ovr ← (arrD c "ovr").mapM toVal
+  for v in ovr do
+    for src in exprTexts v do
+      if (Γ.lookup src).isNone then throw s!"ovr: expression {src} is not in the table of the case"
+  let T := typed decls ovr Γ
   let cat := T.catalogue
   let sh : Showing := fun m => (T.variant m.kind m.id m.config).getD {}
   let fl := flavours decls
   let proxy := strD c "mode" "decision" == "proxy"
   -- rule sets of kubernetes resources are not validated by heimdall's rule set decoder
   let validated := strD c "path" "yaml" != "k8s"
-  let d ← parseDefault c
-  let rs ← (arrD c "rules").mapM parseRule
+  let d ← parseDefault Γ c
+  let rs ← (arrD c "rules").mapM (parseRule Γ)
   -- the model: the function the theorems of Props/C14 are about
   let (res, cfgReason, reasons) ← (match loadDocuments cat proxy validated d rs with
     | .configRejected why => pure (rejectedCfg, reasonStr why, rs.map (fun _ => ""))
